@@ -1,10 +1,10 @@
 import GuppyVerif.Lemmas.C06Sound
 import GuppyVerif.Lemmas.C06Fail
 import GuppyVerif.Lemmas.C06TermFlow
-/-! C06 helper lemmas, part 5: completeness.  If every path is good (`Good P`) then no step of
-    `checkCfg` can raise a user error: a pass-1 error would be a bookkeeping failure and hence a
-    bad path (C06Fail); a pass-2 error would be a leaf that is absent but read later, or owned but
-    dead, on the walk that reaches the block. -/
+/-! C06 helper lemmas, part 5: completeness.  If every path is good (`Good P`) and the CFG is
+    well-kinded, no step of `checkCfg` can raise a user error: a pass-1 error would be a
+    bookkeeping failure and hence a bad path (C06Fail); a pass-2 error would be a leaf that is
+    absent but read later, or held but dead, on the walk that reaches the block. -/
 namespace GuppyVerif.Linearity
 
 open GuppyVerif.Dataflow (LiveSpec LivePath InfPath Edge)
@@ -15,7 +15,7 @@ inductive ReachExit (P : Prog) : Blk → Prop
   | step {b c : Blk} : c ∈ P.succ b → ReachExit P c → ReachExit P b
 
 /-- the shape outside the two known completeness gaps of the code (G1, G2: borrowed arguments
-    in functions with non-terminating regions): no borrowed linear leaf at all, or the exit is
+    in functions with non-terminating regions): no borrowed leaf at all, or the exit is
     reachable from every block (and flagged so) -/
 def NoGap (P : Prog) : Prop :=
   P.borrowedLeaves = [] ∨ (P.exitReachable = true ∧ ∀ b ∈ P.blocks, ReachExit P b)
@@ -82,48 +82,75 @@ theorem foldlM_use_err : ∀ (ls : List Leaf) (s : Scope) (e : Err), ls.foldlM S
         · cases h1; rfl
     | ok s1 => rw [h1] at h; exact ih s1 e h
 
-theorem crun_use_first {inPar : Bool} {es : List Ev} {c1 : LSt}
-    (h : crun inPar ⟨false, false, false⟩ (Ev.use :: es) = some c1) : c1.usedParent = true := by
+theorem crun_use_first {inPar : Bool} {es : List Ev} {c1 : LSt} {k : Bool}
+    (h : crun inPar ⟨false, false, false, false⟩ (⟨Op.use, k⟩ :: es) = some c1) : c1.usedParent = true := by
   cases inPar with
   | false => simp [crun, cstep] at h
   | true =>
     simp only [crun, cstep] at h
     exact (crun_mono h).2.1 rfl
 
-/-! ### walks and the ownership state -/
-
-theorem walk_entry' {P : Prog} (hw : P.WF) {bs : List Blk} {b : Blk} (h : Walk P bs b) :
-    b = P.entry → bs = [] := by
-  cases h with
-  | entry => exact fun _ => rfl
-  | @step bs b c hwk hcb => exact fun e => absurd (e ▸ hcb) (hw.entryNoPred b (walk_blocks hw hwk))
-
 theorem trace_snoc (P : Prog) (l : Leaf) (bs : List Blk) (b : Blk) :
     P.trace l (bs ++ [b]) = P.trace l bs ++ P.blockEvs l b := by
   unfold Prog.trace; simp
 
-/-- the bookkeeping a block starts from is related to whatever ownership state a walk arrives with -/
-theorem rel_init {P : Prog} (hw : P.WF) {l : Leaf} {bs : List Blk} {b : Blk} (hwk : Walk P bs b) {o : Bool}
-    (ho : runEvs (P.initOwned l) (P.trace l bs) = some o) : Rel o ((initScope P b).proj l) o := by
-  by_cases he : b = P.entry
-  · have := walk_entry' hw hwk he
-    subst this
-    subst he
-    simp [Prog.trace, runEvs] at ho
-    subst ho
-    unfold Rel initScope Scope.proj Prog.initOwned
-    by_cases hr : (P.row P.entry).contains l = true <;> simp [hr]
-  · simp [Rel, initScope, Scope.proj, he]
+/-! ### well-kinded CFGs: the rows cover what is read -/
+
+theorem rowKind_some {P : Prog} {b : Blk} {l : Leaf} {k : Bool} (h : P.rowKind b l = some k) : l ∈ P.row b := by
+  unfold Prog.rowKind at h
+  by_cases hr : l ∈ P.row b
+  · exact hr
+  · simp [hr] at h
+
+theorem rowKind_of_mem {P : Prog} {b : Blk} {l : Leaf} (h : l ∈ P.row b) : ∃ k, P.rowKind b l = some k := by
+  unfold Prog.rowKind
+  simp [h]
+
+/-- a leaf that some continuation reads before redefining it is in the block's input row, at the
+    kind of the reading occurrence -/
+theorem willUse_row {P : Prog} (hw : P.WF) (hk : P.KindsOK) {l : Leaf} {b : Blk} (hb : b ∈ P.blocks)
+    (h : WillUse P l b) : l ∈ P.row b := by
+  induction h with
+  | @here b hh =>
+    obtain ⟨k1, hk1, _⟩ := hk.blocks l b hb
+    cases hev : P.blockEvs l b with
+    | nil => simp [hev] at hh
+    | cons e es =>
+      rw [hev] at hk1 hh
+      simp at hh
+      simp only [krun] at hk1
+      cases hke : Ev.kstep (P.rowKind b l) e with
+      | none => simp [hke] at hk1
+      | some k' =>
+        unfold Ev.kstep at hke
+        have hop : e.op = Op.use := by
+          rcases e with ⟨op, el⟩
+          cases op <;> simp [Ev.isUse] at hh ⊢
+        simp only [hop] at hke
+        split at hke
+        · rename_i hc
+          exact rowKind_some hc
+        · cases hke
+  | @later b c hev hcb _ ih =>
+    obtain ⟨k1, hk1, hs⟩ := hk.blocks l b hb
+    rw [hev] at hk1
+    simp [krun] at hk1
+    have hc := ih (hw.closed b hb c hcb)
+    have := hs c hcb hc
+    rw [← hk1] at this
+    obtain ⟨k, hkc⟩ := rowKind_of_mem (b := c) hc
+    rw [hkc] at this
+    exact rowKind_some this.symm
 
 section
-variable {P : Prog} (hw : P.WF) (hg : Good P) {l : Leaf} (hl : P.lin l = true)
-include hw hg hl
+variable {P : Prog} (hw : P.WF) (hk : P.KindsOK) (hg : Good P) {l : Leaf}
+include hw hg
 
 /-- a good program runs through every walk: state before and after the last block -/
 theorem good_run {bs : List Blk} {b : Blk} (hwk : Walk P bs b) :
     ∃ o o1, runEvs (P.initOwned l) (P.trace l bs) = some o ∧ runEvs o (P.blockEvs l b) = some o1 ∧
       runEvs (P.initOwned l) (P.trace l (bs ++ [b])) = some o1 := by
-  have h := (hg.leaves l hl).noBadUse bs b hwk
+  have h := (hg.leaves l).noBadUse bs b hwk
   rw [trace_snoc, runEvs_append] at h
   cases ho : runEvs (P.initOwned l) (P.trace l bs) with
   | none => simp [ho] at h
@@ -136,26 +163,7 @@ theorem good_run {bs : List Blk} {b : Blk} (hwk : Walk P bs b) :
       rw [trace_snoc, runEvs_append, ho]
       simpa using ho1
 
-/-- absent, but some continuation reads it: impossible in a good program -/
-theorem absent_willUse {bs : List Blk} {b : Blk} (hwk : Walk P bs b)
-    (ho : runEvs (P.initOwned l) (P.trace l bs) = some false) (hu : WillUse P l b) : False := by
-  induction hu generalizing bs with
-  | @here b hh =>
-    obtain ⟨o, o1, h1, h2, _⟩ := good_run hw hg hl hwk
-    rw [ho] at h1
-    cases h1
-    cases hev : P.blockEvs l b with
-    | nil => simp [hev] at hh
-    | cons e es =>
-      simp [hev] at hh
-      subst hh
-      simp [hev, runEvs, Ev.step] at h2
-  | @later b c hev hcb _ ih =>
-    refine ih (Walk.step hwk hcb) ?_
-    rw [trace_snoc, hev, List.append_nil]
-    exact ho
-
-/-- an owned borrowed leaf from where the exit can be reached is read on the way (at the latest
+/-- a held borrowed leaf from where the exit can be reached is read on the way (at the latest
     when it is handed back) -/
 theorem present_reachExit {bs : List Blk} {b : Blk} (hwk : Walk P bs b)
     (ho : runEvs (P.initOwned l) (P.trace l bs) = some true) (hb : l ∈ P.borrowedLeaves)
@@ -165,7 +173,7 @@ theorem present_reachExit {bs : List Blk} {b : Blk} (hwk : Walk P bs b)
     refine .here ?_
     unfold Prog.blockEvs
     rw [hw.exitStmts]
-    simp [hb]
+    simp [hb, Ev.isUse]
   | @step b c hcb _ ih =>
     cases hev : P.blockEvs l b with
     | nil =>
@@ -173,20 +181,116 @@ theorem present_reachExit {bs : List Blk} {b : Blk} (hwk : Walk P bs b)
       rw [trace_snoc, hev, List.append_nil]
       exact ho
     | cons e es =>
-      cases e with
+      rcases e with ⟨op, el⟩
+      cases op with
       | use => exact .here (by rw [hev]; rfl)
-      | give => exact absurd (by rw [hev]; rfl) (blockEvs_head_ne_give P l b)
+      | give => exact absurd rfl (blockEvs_notGive hw l (walk_blocks hw hwk) ⟨Op.give, el⟩ (by rw [hev]; rfl))
       | asg =>
-        obtain ⟨o, o1, h1, h2, _⟩ := good_run hw hg hl hwk
+        obtain ⟨o, o1, h1, h2, _⟩ := good_run hw hg (l := l) hwk
         rw [ho] at h1
         cases h1
         simp [hev, runEvs, Ev.step] at h2
+
+include hk
+
+/-- when a linear value is held under a leaf on entering a block, the block's row has the leaf
+    at a linear kind -/
+theorem held_kind (hgap : NoGap P) {bs : List Blk} {b : Blk} (hwk : Walk P bs b)
+    (ho : runEvs (P.initOwned l) (P.trace l bs) = some true) : P.rowKind b l = some true := by
+  induction hwk with
+  | entry =>
+    simp [Prog.trace, runEvs, Prog.initOwned] at ho
+    exact rowKind_true.mpr ⟨hk.rows _ hw.entryIn _ ho, ho⟩
+  | @step bs b c hwk hcb ih =>
+    have hb := walk_blocks hw hwk
+    obtain ⟨o, o1, h1, h2, h3⟩ := good_run hw hg (l := l) hwk
+    rw [h3] at ho
+    cases ho
+    obtain ⟨k1, hk1, hs⟩ := hk.blocks l b hb
+    -- through the block: held ⇒ the current binding is linear
+    have hinv : ∀ (es : List Ev) (o o' : Bool) (k k' : Option Bool), runEvs o es = some o' → krun k es = some k' →
+        (o = true → k = some true) → (o' = true → k' = some true) := by
+      intro es
+      induction es with
+      | nil => intro o o' k k' h1 h2 hi; simp [runEvs] at h1; simp [krun] at h2; subst h1; subst h2; exact hi
+      | cons e es ihe =>
+        intro o o' k k' h1 h2 hi
+        simp only [runEvs] at h1
+        simp only [krun] at h2
+        cases hs1 : Ev.step o e with
+        | none => simp [hs1] at h1
+        | some o2 =>
+          cases hs2 : Ev.kstep k e with
+          | none => simp [hs2] at h2
+          | some k2 =>
+            simp only [hs1] at h1
+            simp only [hs2] at h2
+            refine ihe o2 o' k2 k' h1 h2 ?_
+            rcases e with ⟨op, el⟩
+            cases op <;> cases el <;> cases o <;> rcases k with _ | _ | _ <;>
+              simp_all [Ev.step, Ev.kstep]
+    have hk1t : k1 = some true := hinv _ o true _ _ h2 hk1 (fun ho' => ih (by rw [h1, ho'])) rfl
+    have hcB := hw.closed b hb c hcb
+    have hrow : l ∈ P.row c := by
+      rcases (hg.leaves l).noLeak _ c (Walk.step hwk hcb) h3 with h | ⟨hbl, _⟩
+      · exact willUse_row hw hk hcB h
+      · rcases hgap with h | ⟨_, h⟩
+        · rw [h] at hbl; cases hbl
+        · exact willUse_row hw hk hcB (present_reachExit hw hg (Walk.step hwk hcb) h3 hbl (h c hcB))
+    rw [hs c hcb hrow, hk1t]
+
+/-- absent, but some continuation reads it at a linear kind: impossible in a good program -/
+theorem absent_willUse {bs : List Blk} {b : Blk} (hwk : Walk P bs b)
+    (ho : runEvs (P.initOwned l) (P.trace l bs) = some false) (hkind : P.rowKind b l = some true)
+    (hu : WillUse P l b) : False := by
+  induction hu generalizing bs with
+  | @here b hh =>
+    obtain ⟨o, o1, h1, h2, _⟩ := good_run hw hg (l := l) hwk
+    rw [ho] at h1
+    cases h1
+    obtain ⟨k1, hk1, _⟩ := hk.blocks l b (walk_blocks hw hwk)
+    cases hev : P.blockEvs l b with
+    | nil => simp [hev] at hh
+    | cons e es =>
+      rw [hev] at hh h2 hk1
+      rcases e with ⟨op, el⟩
+      cases op <;> simp [Ev.isUse] at hh
+      simp only [krun, Ev.kstep, hkind] at hk1
+      cases el with
+      | true => simp [runEvs, Ev.step] at h2
+      | false => simp at hk1
+  | @later b c hev hcb hu' ih =>
+    have hb := walk_blocks hw hwk
+    obtain ⟨k1, hk1, hs⟩ := hk.blocks l b hb
+    rw [hev] at hk1
+    simp [krun] at hk1
+    refine ih (Walk.step hwk hcb) ?_ ?_
+    · rw [trace_snoc, hev, List.append_nil]
+      exact ho
+    · rw [hs c hcb (willUse_row hw hk (hw.closed b hb c hcb) hu'), ← hk1, hkind]
 
 end
 
 /-! ### pass 1 cannot raise a user error on a good program -/
 
-theorem checkBlock_no_user_err {P : Prog} (hw : P.WF) (hg : Good P)
+theorem rel_init {P : Prog} (hw : P.WF) {l : Leaf} {bs : List Blk} {b : Blk} (hwk : Walk P bs b) {o : Bool}
+    (ho : runEvs (P.initOwned l) (P.trace l bs) = some o) :
+    Rel o (P.rowKind b l) ((initScope P b).proj l) o := by
+  by_cases he : b = P.entry
+  · have := walk_entry' hw hwk he
+    subst this
+    subst he
+    simp [Prog.trace, runEvs] at ho
+    subst ho
+    rw [(c0_entry hw).1]
+    unfold Rel Prog.initOwned
+    by_cases hr : (P.row P.entry).contains l = true
+    · simp [hr]
+    · simp only [hr]; simp
+  · rw [(c0_other hw he).1]
+    simp [Rel]
+
+theorem checkBlock_no_user_err {P : Prog} (hw : P.WF) (hk : P.KindsOK) (hg : Good P) (hgap : NoGap P)
     (hr : ∀ b ∈ P.blocks, b ≠ P.exit → Reachable P b) {b : Blk} (hb : b ∈ P.blocks) {e : Err}
     (h : checkBlock P b = .error e) : e = .crash := by
   by_cases hbe : b = P.exit
@@ -195,17 +299,23 @@ theorem checkBlock_no_user_err {P : Prog} (hw : P.WF) (hg : Good P)
     rw [hw.exitStmts] at h
     simp [pure, Except.pure] at h
   · obtain ⟨bs, hwk⟩ := hr b hb hbe
-    rcases checkBlock_err h with h' | ⟨st, hst, hs⟩ | ⟨l, hl, hf⟩
+    rcases checkBlock_err h with h' | ⟨st, hst, hs⟩ | ⟨l, hf⟩
     · exact h'
     · exact absurd (hg.rules b ⟨bs, hwk⟩ st hst) hs
     · exfalso
-      obtain ⟨o, o1, h1, h2, _⟩ := good_run hw hg hl hwk
-      have := fails_sem (more := if b = P.exit ∧ l ∈ P.borrowedLeaves then [Ev.use] else []) hf (rel_init hw hwk h1)
-      unfold Prog.blockEvs at h2
+      obtain ⟨o, o1, h1, h2, _⟩ := good_run hw hg (l := l) hwk
+      obtain ⟨k1, hk1, _⟩ := hk.blocks l b hb
+      have hK : P.rowKind b l ≠ some true → o = false := by
+        intro hne
+        cases ho : o with
+        | false => rfl
+        | true => exact absurd (held_kind hw hk hg hgap hwk (by rw [h1, ho])) hne
+      unfold Prog.blockEvs at h2 hk1
+      have := fails_sem hf hK (kinv_init hw hk b) (rel_init hw hwk h1) hk1
       rw [this] at h2
       cases h2
 
-theorem scopes_no_user_err {P : Prog} (hw : P.WF) (hg : Good P)
+theorem scopes_no_user_err {P : Prog} (hw : P.WF) (hk : P.KindsOK) (hg : Good P) (hgap : NoGap P)
     (hr : ∀ b ∈ P.blocks, b ≠ P.exit → Reachable P b) {e : Err} (h : scopes P = .error e) : e = .crash := by
   unfold scopes at h
   cases h1 : pass1 P with
@@ -218,7 +328,7 @@ theorem scopes_no_user_err {P : Prog} (hw : P.WF) (hg : Good P)
     | error e2 =>
       simp [h2, Except.map] at hf
       subst hf
-      exact checkBlock_no_user_err hw hg hr hb h2
+      exact checkBlock_no_user_err hw hk hg hgap hr hb h2
     | ok s => simp [h2, Except.map] at hf
   | ok tbl1 =>
     simp only [h1, bind, Except.bind] at h
@@ -236,31 +346,32 @@ theorem scopes_no_user_err {P : Prog} (hw : P.WF) (hg : Good P)
 /-! ### pass 2 cannot raise a user error on a good program -/
 
 section
-variable {P : Prog} (hw : P.WF) (hg : Good P) (C : PreCert P) (hi : C.init = []) {l : Leaf} (hl : P.lin l = true)
-include hw hg C hi hl
+variable {P : Prog} (hw : P.WF) (hk : P.KindsOK) (hg : Good P) (hgap : NoGap P) (C : PreCert P)
+  (hi : C.init = []) {l : Leaf}
+include hw hk hg hgap C hi
 
 theorem live_willUse {b : Blk} (hb : b ∈ P.blocks) (h : l ∈ C.live b) : WillUse P l b := by
   rcases (C.liveOK b hb l).mp h with h | ⟨h, _⟩
-  · exact willUse_of_livePath hw C hl hb h
+  · exact willUse_of_livePath hw C hb h
   · rw [hi] at h; cases h
 
 theorem willUse_live {b : Blk} (hb : b ∈ P.blocks) (hbe : b ≠ P.entry) (h : WillUse P l b) : l ∈ C.live b := by
   induction h with
   | @here b hh =>
-    obtain ⟨_, h2⟩ := blk_run hw C hl hb
-    rw [(c0_other hw hl hbe).1] at h2
+    obtain ⟨_, h2⟩ := blk_run hw C (l := l) hb
+    rw [(c0_other hw hbe).1] at h2
     cases hev : P.blockEvs l b with
     | nil => simp [hev] at hh
     | cons e es =>
-      simp [hev] at hh
-      subst hh
-      rw [hev] at h2
+      rw [hev] at hh h2
+      rcases e with ⟨op, el⟩
+      cases op <;> simp [Ev.isUse] at hh
       exact live_of_used C.liveOK hb (by simpa [Scope.proj] using crun_use_first h2)
   | @later b c hev hcb _ ih =>
     have hc : c ∈ P.blocks := hw.closed b hb c hcb
     have hce : c ≠ P.entry := fun e => hw.entryNoPred b hb (e ▸ hcb)
-    obtain ⟨_, h2⟩ := blk_run hw C hl hb
-    rw [(c0_other hw hl hbe).1, hev] at h2
+    obtain ⟨_, h2⟩ := blk_run hw C (l := l) hb
+    rw [(c0_other hw hbe).1, hev] at h2
     simp [crun] at h2
     refine live_of_succ C.liveOK hw.closed hb hcb (ih hc hce) ?_
     intro hv
@@ -268,96 +379,131 @@ theorem willUse_live {b : Blk} (hb : b ∈ P.blocks) (hbe : b ≠ P.entry) (h : 
     rw [← h2] at this
     cases this
 
-/-- the ownership state after block `b` on a walk, related to the bookkeeping of `b` -/
+/-- the state after block `b` on a walk, related to the bookkeeping of `b` -/
 theorem good_after {bs : List Blk} {b : Blk} (hwk : Walk P bs b) :
-    ∃ o o1, runEvs (P.initOwned l) (P.trace l bs) = some o ∧
-      runEvs (P.initOwned l) (P.trace l (bs ++ [b])) = some o1 ∧ Rel o ((C.sc b).proj l) o1 := by
-  obtain ⟨o, o1, h1, h2, h3⟩ := good_run hw hg hl hwk
-  obtain ⟨_, hc⟩ := blk_run hw C hl (walk_blocks hw hwk)
-  exact ⟨o, o1, h1, h3, rel_run _ _ _ _ _ hc h2 (rel_init hw hwk h1)⟩
+    ∃ o o1 k1, runEvs (P.initOwned l) (P.trace l bs) = some o ∧
+      runEvs (P.initOwned l) (P.trace l (bs ++ [b])) = some o1 ∧
+      (∀ c ∈ P.succ b, l ∈ P.row c → P.rowKind c l = k1) ∧
+      KInv (P.rowKind b l) ((C.sc b).proj l) k1 ∧ Rel o (P.rowKind b l) ((C.sc b).proj l) o1 := by
+  obtain ⟨o, o1, h1, h2, h3⟩ := good_run hw hg (l := l) hwk
+  have hb := walk_blocks hw hwk
+  obtain ⟨_, hc⟩ := blk_run hw C (l := l) hb
+  obtain ⟨k1, hk1, hs⟩ := hk.blocks l b hb
+  have hK : P.rowKind b l ≠ some true → o = false := by
+    intro hne
+    cases ho : o with
+    | false => rfl
+    | true => exact absurd (held_kind hw hk hg hgap hwk (by rw [h1, ho])) hne
+  obtain ⟨hi', hr'⟩ := rel_run hK _ _ _ _ _ _ _ hc h2 hk1 (kinv_init hw hk b) (rel_init hw hwk h1)
+  exact ⟨o, o1, k1, h1, h3, hs, hi', hr'⟩
 
 theorem no_usedThenLive {b c : Blk} (hb : b ∈ P.blocks) (hrb : Reachable P b) (hcb : c ∈ P.succ b)
-    (hlc : l ∈ C.live c) (hu : (C.sc b).used l = some true) : False := by
+    (hlc : l ∈ C.live c) (hlin : l ∈ P.rowLin c) (hu : (C.sc b).used l = some true) : False := by
   obtain ⟨bs, hwk⟩ := hrb
-  obtain ⟨o, o1, _, h2, hr⟩ := good_after hw hg C hi hl hwk
+  obtain ⟨o, o1, k1, _, h2, hs, hki, hr⟩ := good_after hw hk hg hgap C hi (l := l) hwk
+  have hrowc := hk.rows _ (hw.closed b hb c hcb) _ hlin
+  have hkc : P.rowKind c l = some true := rowKind_true.mpr ⟨hrowc, hlin⟩
+  have hk1 : k1 = some true := by rw [← hs c hcb hrowc]; exact hkc
   have ho1 : o1 = false := by
-    rw [used_proj hw hl] at hu
+    rw [used_proj hw] at hu
     unfold Rel at hr
+    unfold KInv at hki
     cases hv : ((C.sc b).proj l).inVars with
     | true =>
       simp only [hv, if_true] at hr hu
       simp at hu
       simp [hr, hu]
     | false =>
-      simp only [hv, Bool.false_eq_true, if_false] at hr hu
+      simp only [hv, Bool.false_eq_true, if_false] at hr hu hki
       split at hu
       · simp at hu
+        rw [← hki, hk1] at hr
         simpa [hu] using hr
       · cases hu
   subst ho1
-  exact absurd_willUse hw hg hl (Walk.step hwk hcb) h2
-    (live_willUse hw hg C hi hl (hw.closed b hb c hcb) hlc)
+  exact absurd_willUse' hw hk hg (Walk.step hwk hcb) h2 hkc
+    (live_willUse hw hk hg hgap C hi (hw.closed b hb c hcb) hlc)
 where
-  absurd_willUse {P : Prog} (hw : P.WF) (hg : Good P) {l : Leaf} (hl : P.lin l = true) {bs : List Blk} {b : Blk}
-      (hwk : Walk P bs b) (ho : runEvs (P.initOwned l) (P.trace l bs) = some false) (hu : WillUse P l b) : False :=
-    absent_willUse hw hg hl hwk ho hu
+  absurd_willUse' {P : Prog} (hw : P.WF) (hk : P.KindsOK) (hg : Good P) {l : Leaf} {bs : List Blk} {b : Blk}
+      (hwk : Walk P bs b) (ho : runEvs (P.initOwned l) (P.trace l bs) = some false)
+      (hkind : P.rowKind b l = some true) (hu : WillUse P l b) : False :=
+    absent_willUse hw hk hg hwk ho hkind hu
 
-theorem no_leak_err (hgap : NoGap P) {b c : Blk} (hb : b ∈ P.blocks) (hrb : Reachable P b) (hcb : c ∈ P.succ b)
-    (hlive : l ∈ C.live b ∨ l ∈ (C.sc b).vars) (hu : (C.sc b).used l = some false) : l ∈ C.live c := by
-  obtain ⟨bs, hwk⟩ := hrb
-  obtain ⟨o, o1, h1, h2, hr⟩ := good_after hw hg C hi hl hwk
+/-- a held value at the end of `b` is live in every successor -/
+theorem held_live_succ {bs : List Blk} {b c : Blk} (hwk : Walk P bs b) (hcb : c ∈ P.succ b)
+    (h2 : runEvs (P.initOwned l) (P.trace l (bs ++ [b])) = some true) : l ∈ C.live c := by
+  have hb := walk_blocks hw hwk
   have hc : c ∈ P.blocks := hw.closed b hb c hcb
   have hce : c ≠ P.entry := fun e => hw.entryNoPred b hb (e ▸ hcb)
-  have ho1 : o1 = true := by
-    rw [used_proj hw hl] at hu
-    unfold Rel at hr
-    cases hv : ((C.sc b).proj l).inVars with
-    | true =>
-      simp only [hv, if_true] at hr hu
-      simp at hu
-      simp [hr, hu]
-    | false =>
-      simp only [hv, Bool.false_eq_true, if_false] at hr hu
-      split at hu
-      · simp at hu
-        simp only [hu, Bool.false_eq_true, if_false] at hr
-        subst hr
-        cases ho : o1 with
-        | true => rfl
-        | false =>
-          exfalso
-          subst ho
-          have hlb : l ∈ C.live b := by
-            rcases hlive with h | h
-            · exact h
-            · simp [Scope.proj, h] at hv
-          exact absent_willUse hw hg hl hwk h1 (live_willUse hw hg C hi hl hb hlb)
-      · cases hu
-  subst ho1
-  rcases (hg.leaves l hl).noLeak _ c (Walk.step hwk hcb) h2 with h | ⟨hbl, _⟩
-  · exact willUse_live hw hg C hi hl hc hce h
+  rcases (hg.leaves l).noLeak _ c (Walk.step hwk hcb) h2 with h | ⟨hbl, _⟩
+  · exact willUse_live hw hk hg hgap C hi hc hce h
   · rcases hgap with h | ⟨_, h⟩
     · rw [h] at hbl; cases hbl
-    · exact willUse_live hw hg C hi hl hc hce
-        (present_reachExit hw hg hl (Walk.step hwk hcb) h2 hbl (h c hc))
+    · exact willUse_live hw hk hg (Or.inr ⟨‹_›, h⟩) C hi hc hce
+        (present_reachExit hw hg (Walk.step hwk hcb) h2 hbl (h c hc))
+
+theorem no_leak_local {b c : Blk} (hrb : Reachable P b) (hcb : c ∈ P.succ b)
+    (hv : l ∈ (C.sc b).vars) (hlv : l ∈ (C.sc b).linVars) (hu : (C.sc b).used l = some false) : l ∈ C.live c := by
+  obtain ⟨bs, hwk⟩ := hrb
+  obtain ⟨o, o1, k1, _, h2, _, _, hr⟩ := good_after hw hk hg hgap C hi (l := l) hwk
+  have ho1 : o1 = true := by
+    rw [used_proj hw] at hu
+    unfold Rel at hr
+    have hv' : ((C.sc b).proj l).inVars = true := by simp [Scope.proj, hv]
+    have hk' : ((C.sc b).proj l).kLoc = true := by simp [Scope.proj, hlv]
+    simp only [hv', if_true] at hr hu
+    simp at hu
+    simp [hr, hu, hk']
+  subst ho1
+  exact held_live_succ hw hk hg hgap C hi hwk hcb h2
+
+theorem no_leak_parent {b c : Blk} (hb : b ∈ P.blocks) (hrb : Reachable P b) (hcb : c ∈ P.succ b)
+    (hp : l ∈ (C.sc b).parent) (hv : l ∉ (C.sc b).vars) (hlp : l ∈ (C.sc b).linParent) (hlb : l ∈ C.live b)
+    (hu : (C.sc b).used l = some false) : l ∈ C.live c := by
+  obtain ⟨bs, hwk⟩ := hrb
+  obtain ⟨o, o1, k1, h1, h2, _, _, hr⟩ := good_after hw hk hg hgap C hi (l := l) hwk
+  obtain ⟨hpar, _⟩ := blk_run hw C (l := l) hb
+  have hbe : b ≠ P.entry := by
+    intro e; subst e
+    rw [hpar.1, (c0_entry hw (l := l)).2] at hp; cases hp
+  have hkb : P.rowKind b l = some true := by
+    rw [hpar.1, (c0_other hw (l := l) hbe).2.1] at hp
+    rw [hpar.2, (c0_other hw (l := l) hbe).2.2] at hlp
+    exact rowKind_true.mpr ⟨hp, hlp⟩
+  have ho1 : o1 = true := by
+    rw [used_proj hw] at hu
+    unfold Rel at hr
+    have hv' : ((C.sc b).proj l).inVars = false := by simp [Scope.proj, hv]
+    simp only [hv', Bool.false_eq_true, if_false, hp, if_true] at hr hu
+    simp at hu
+    simp only [hu, Bool.false_and, Bool.false_eq_true, if_false] at hr
+    subst hr
+    cases ho : o1 with
+    | true => rfl
+    | false =>
+      exfalso
+      subst ho
+      exact absent_willUse hw hk hg hwk h1 hkb (live_willUse hw hk hg hgap C hi hb hlb)
+  subst ho1
+  exact held_live_succ hw hk hg hgap C hi hwk hcb h2
 
 end
 
-theorem checkLiveUsed_err {P : Prog} {s : Scope} {x : Leaf} {e : Err} (h : checkLiveUsed P s x = .error e) :
-    e = .crash ∨ (P.lin x = true ∧ s.used x = some true) := by
+theorem checkLiveUsed_err {P : Prog} {c : Blk} {s : Scope} {x : Leaf} {e : Err}
+    (h : checkLiveUsed P c s x = .error e) : e = .crash ∨ (x ∈ P.rowLin c ∧ s.used x = some true) := by
   unfold checkLiveUsed at h
   split at h
   · rename_i hl
     cases hu : s.used x with
     | none => simp [hu] at h; exact Or.inl h.symm
     | some u => cases u with
-      | true => exact Or.inr ⟨hl, rfl⟩
+      | true => exact Or.inr ⟨by simpa using hl, rfl⟩
       | false => simp [hu] at h
   · cases h
 
-theorem checkLeak_err {P : Prog} {live : Blk → List Leaf} {b : Blk} {s : Scope} {x : Leaf} {e : Err}
-    (h : checkLeak P live b s x = .error e) :
-    e = .crash ∨ (P.lin x = true ∧ (x ∈ live b ∨ x ∈ s.vars) ∧ s.used x = some false ∧
+theorem checkLeak_err {P : Prog} {live : Blk → List Leaf} {b : Blk} {s : Scope} {x : Leaf} {lin : Bool} {e : Err}
+    (h : checkLeak P live b s lin x = .error e) :
+    e = .crash ∨ (lin = true ∧ (x ∈ live b ∨ x ∈ s.vars) ∧ s.used x = some false ∧
       ∃ c ∈ P.succ b, x ∉ live c) := by
   unfold checkLeak at h
   split at h
@@ -381,9 +527,9 @@ theorem checkLeak_err {P : Prog} {live : Blk → List Leaf} {b : Blk} {s : Scope
           simpa using this
       · cases h
 
-theorem checkEdges_no_user_err {P : Prog} (hw : P.WF) (hg : Good P) (C : PreCert P) (hi : C.init = [])
-    (hgap : NoGap P) (hr : ∀ b ∈ P.blocks, b ≠ P.exit → Reachable P b) {b : Blk} (hb : b ∈ P.blocks) {e : Err}
-    (h : checkEdges P C.live b (C.sc b) = .error e) : e = .crash := by
+theorem checkEdges_no_user_err {P : Prog} (hw : P.WF) (hk : P.KindsOK) (hg : Good P) (C : PreCert P)
+    (hi : C.init = []) (hgap : NoGap P) (hr : ∀ b ∈ P.blocks, b ≠ P.exit → Reachable P b) {b : Blk}
+    (hb : b ∈ P.blocks) {e : Err} (h : checkEdges P C.live b (C.sc b) = .error e) : e = .crash := by
   have hreach : ∀ c, c ∈ P.succ b → Reachable P b := by
     intro c hc
     refine hr b hb ?_
@@ -396,28 +542,36 @@ theorem checkEdges_no_user_err {P : Prog} (hw : P.WF) (hg : Good P) (C : PreCert
     obtain ⟨x, hx, h⟩ := forM_err _ _ h
     rcases checkLiveUsed_err h with h | ⟨hl, hu⟩
     · exact h
-    · exact (no_usedThenLive hw hg C hi hl hb (hreach c hc) hc hx hu).elim
+    · exact (no_usedThenLive hw hk hg hgap C hi hb (hreach c hc) hc hx hl hu).elim
   · rcases bind_err_unit h with h | ⟨_, h⟩
-    · obtain ⟨x, _, h⟩ := forM_err _ _ h
-      rcases checkLeak_err h with h | ⟨hl, hlive, hu, c, hc, hx⟩
+    · obtain ⟨x, hx, h⟩ := forM_err _ _ h
+      rcases checkLeak_err h with h | ⟨hl, _, hu, c, hc, hxc⟩
       · exact h
-      · exact absurd (no_leak_err hw hg C hi hl hgap hb (hreach c hc) hc hlive hu) hx
+      · exact absurd (no_leak_local hw hk hg hgap C hi (hreach c hc) hc hx (by simpa using hl) hu) hxc
     · rcases bind_err_unit h with h | ⟨_, h⟩
-      · unfold checkInRow at h
-        split at h
-        · cases h
-        · obtain ⟨x, _, h⟩ := forM_err _ _ h
+      · obtain ⟨x, hx, h⟩ := forM_err _ _ h
+        obtain ⟨hxp, hxv⟩ := List.mem_filter.mp hx
+        rcases checkLeak_err h with h | ⟨hl, hlive, hu, c, hc, hxc⟩
+        · exact h
+        · have hxv' : x ∉ (C.sc b).vars := by simpa using hxv
+          have hlb : x ∈ C.live b := hlive.elim id (fun h' => absurd h' hxv')
+          exact absurd (no_leak_parent hw hk hg hgap C hi hb (hreach c hc) hc hxp hxv' (by simpa using hl) hlb hu) hxc
+      · rcases bind_err_unit h with h | ⟨_, h⟩
+        · unfold checkInRow at h
           split at h
           · cases h
-          · cases h; rfl
-      · unfold checkOutRows at h
-        obtain ⟨c, _, h⟩ := forM_err _ _ h
-        split at h
-        · cases h
-        · obtain ⟨x, _, h⟩ := forM_err _ _ h
+          · obtain ⟨x, _, h⟩ := forM_err _ _ h
+            split at h
+            · cases h
+            · cases h; rfl
+        · unfold checkOutRows at h
+          obtain ⟨c, _, h⟩ := forM_err _ _ h
           split at h
           · cases h
-          · cases h; rfl
+          · obtain ⟨x, _, h⟩ := forM_err _ _ h
+            split at h
+            · cases h
+            · cases h; rfl
 
 theorem liveDefault_nil {P : Prog} (hgap : NoGap P) : liveDefault P = [] := by
   unfold liveDefault
@@ -425,15 +579,16 @@ theorem liveDefault_nil {P : Prog} (hgap : NoGap P) : liveDefault P = [] := by
   · simp [h]
   · simp [h]
 
-/-- no user error anywhere in `checkCfg` on a good program outside the known gaps -/
-theorem checkCfg_no_user_err {P : Prog} (hw : P.WF) (hr : ∀ b ∈ P.blocks, b ≠ P.exit → Reachable P b)
+/-- no user error anywhere in `checkCfg` on a good, well-kinded program outside the known gaps -/
+theorem checkCfg_no_user_err {P : Prog} (hw : P.WF) (hk : P.KindsOK)
+    (hr : ∀ b ∈ P.blocks, b ≠ P.exit → Reachable P b)
     (hgap : NoGap P) (hg : Good P) {e : Err} (h : checkCfg P = .error e) : e = .crash := by
   unfold checkCfg at h
   cases h1 : scopes P with
   | error e1 =>
     simp only [h1, bind, Except.bind] at h
     cases h
-    exact scopes_no_user_err hw hg hr h1
+    exact scopes_no_user_err hw hk hg hgap hr h1
   | ok tbl =>
     simp only [h1, bind, Except.bind] at h
     obtain ⟨s1, s2, _⟩ := scopes_ok h1
@@ -441,7 +596,7 @@ theorem checkCfg_no_user_err {P : Prog} (hw : P.WF) (hr : ∀ b ∈ P.blocks, b 
         (liveFuel (flowCfg P (lookup tbl)) (liveDefault P))
         (Dataflow.liveInit (flowCfg P (lookup tbl)) (liveDefault P)) with
     | none =>
-      have := liveRun_flow_isSome P (lookup tbl) (liveDefault P) headSched
+      have := liveRun_flow_isSome P hw.closed (lookup tbl) (liveDefault P) headSched
       rw [h2] at this
       cases this
     | some t =>
@@ -452,6 +607,6 @@ theorem checkCfg_no_user_err {P : Prog} (hw : P.WF) (hr : ∀ b ∈ P.blocks, b 
       have h' : checkEdges P C.live q.1 (C.sc q.1) = .error e := by
         show checkEdges P t.vals q.1 (lookup tbl q.1) = .error e
         rw [← (s2 q hq).2]; exact h
-      exact checkEdges_no_user_err hw hg C (liveDefault_nil hgap) hgap hr (s2 q hq).1 h'
+      exact checkEdges_no_user_err hw hk hg C (liveDefault_nil hgap) hgap hr (s2 q hq).1 h'
 
 end GuppyVerif.Linearity
